@@ -3,6 +3,7 @@ package main
 import (
 	"fmt"
 	"go/ast"
+	"strings"
 	"go/token"
 	"go/types"
 
@@ -416,8 +417,14 @@ func (g *Graph) isSuccessReturn(id int) bool {
 	// error (fmt.Errorf, errors.New, &T{...}) which is never nil.
 	switch x := lastE.(type) {
 	case *ast.CallExpr:
-		switch calleeName(g.F.Info(), x) {
+		nm := calleeName(g.F.Info(), x)
+		switch nm {
 		case "fmt.Errorf", "errors.New":
+			return false
+		}
+		// error constructors by convention: errorf, Errorf, Newf, Wrapf, NewErrf
+		short := strings.ToLower(shortCallee(nm))
+		if strings.HasSuffix(short, "errorf") || strings.HasSuffix(short, "errf") || short == "newf" || short == "wrapf" || short == "promote" {
 			return false
 		}
 	case *ast.UnaryExpr:
